@@ -158,6 +158,11 @@ def run(ctx):
                 maps.append(c)
     ctx.check(okp and len(maps) == 2, R, "projection follows the requested order", "indices pushed per requested name; %d maps over the index list" % len(maps),
               "Select::exec does not build the projection by mapping over the requested-column index list for both columns and cells (%d maps, push in request loop: %s)" % (len(maps), okp), f.loc(), fn=f.name)
+    # the projection is applied whenever columns were requested: its only condition is "the request is not empty"
+    for c in maps:
+        cond = [(e[:70], tr) for (e, tr, g) in S.bool_facts_at(c[0]) if isinstance(tr, bool) and not re.search(r"is_empty\(", e)]
+        ctx.check(not cond, R, "projection applied whenever columns are requested", "", "Select::exec projects only under the additional condition %s: some requests (for example all columns "
+                  "in another order, or a repeated column) come back in schema order" % cond, f.loc(), fn=f.name, key=R + "|always")
     # no reversal / sort / dedup of the index list or the rows
     bad = [short(c[1]) for c in cs if re.search(r"(::sort\w*|::reverse|::rev|::dedup\w*|::swap|::truncate|::pop)$", c[1])]
     ctx.check(not bad, R, "no reordering of rows or indices", "", "Select::exec reorders or truncates with %s" % bad, f.loc(), fn=f.name)
